@@ -153,8 +153,11 @@ def build(m):
     pre = struct.pack("<H2xI", S.count, len(strings)) + strings
     mh = struct.pack("<f9H", hs.get("radius", 1.5), len(meshes), len(m.get("attributes", [])), len(submesh_recs), len(m.get("materials", [])), len(bones), len(bone_tables),
                      len(shape_recs), len(shape_meshes), len(shape_values))
-    mh += struct.pack("<BBHBB", nl, hs.get("flags1", 1), len(element_ids), 0, hs.get("flags2", 0))
-    mh += struct.pack("<ffHHBBBBHHH6x", hs.get("model_clip", 0.0), hs.get("shadow_clip", 0.0), hs.get("unknown4", 0), 0, hs.get("unknown5", 0), hs.get("bg_change", 0),
+    tsm = m.get("terrain_shadow_meshes", [])       # 20-byte records, opaque to the public API but part of the table grammar
+    tss = m.get("terrain_shadow_submeshes", [])    # 12-byte records
+    assert all(len(r) == 20 for r in tsm) and all(len(r) == 12 for r in tss)
+    mh += struct.pack("<BBHBB", nl, hs.get("flags1", 1), len(element_ids), len(tsm), hs.get("flags2", 0))
+    mh += struct.pack("<ffHHBBBBHHH6x", hs.get("model_clip", 0.0), hs.get("shadow_clip", 0.0), hs.get("unknown4", 0), len(tss), hs.get("unknown5", 0), hs.get("bg_change", 0),
                       hs.get("bg_crest", 0), hs.get("unknown6", 0), hs.get("unknown7", 0), hs.get("unknown8", 0), hs.get("unknown9", 0))
     assert len(mh) == 56
     eids = b"".join(struct.pack("<II3f3f", *e) for e in element_ids)
@@ -172,7 +175,9 @@ def build(m):
             b += struct.pack("<H2xIHHHHI3I3BB", me["vcount"], len(me["indices"]), me.get("material", 0), me["_submesh_index"], len(me["submeshes"]), me.get("bone_table", 0),
                              me["_start_index"], *me["_offs"], *(list(me["strides"]) + [0] * (3 - len(me["strides"]))), me["nstreams"])
         b += b"".join(struct.pack("<I", S.off[n]) for n in m.get("attributes", []))
+        b += b"".join(tsm)
         b += b"".join(struct.pack("<IIIHH", *r) for r in submesh_recs)
+        b += b"".join(tss)
         b += b"".join(struct.pack("<I", S.off[n]) for n in m.get("materials", []))
         b += b"".join(struct.pack("<I", S.off[n]) for n in bones)
         b += bt
